@@ -96,6 +96,9 @@ func (x *fx) resolveName(name string, at *ssa.BasicBlock, override map[*ssa.Phi]
 		if !ok || id.Name != name {
 			continue
 		}
+		if v, isVar := d.Object().(*types.Var); isVar && v.IsField() {
+			continue // the selector of a field access, not a variable
+		}
 		db := d.Block()
 		okBlock := false
 		if db == at {
@@ -438,7 +441,7 @@ func (x *fx) loopHead(li *loopInfo, b *ssa.BasicBlock, st *State, reach Term, pr
 		if !loopCalls {
 			break
 		}
-		if strings.HasPrefix(gk, "n:") || strings.HasPrefix(gk, "ret:") || strings.HasPrefix(gk, "arg:") {
+		if strings.HasPrefix(gk, "n:") || strings.HasPrefix(gk, "ret:") || strings.HasPrefix(gk, "arg:") || strings.HasPrefix(gk, "gs:") {
 			head.ghost[gk] = e.declare("ghost:"+gk, e.ghostSort(gk))
 		}
 	}
